@@ -103,7 +103,7 @@ def _init():
 def run():
     chk = Check("C07", "exploration")
     t = tier()
-    n_pairs, seeds = (20, [0, 1, 2, 3]) if t == "quick" else (300, [0, 1, 2, 3, 4, 5, 6, 7])
+    n_pairs, seeds = (20, [0, 1, 2, 3]) if t == "quick" else (110, [0, 1, 2, 3, 4, 5])
     r = rng("c07")
     mats = _cli.Materials()
     from harness import cli as clim
